@@ -29,15 +29,24 @@ def sig(prop):
 
 def programs(ctx, want_cancel):
     quick = ctx.tier == "quick"
-    progs = core.generate(ctx, "Gen_Call", "Gen_Call_Q.cfg" if quick else "Gen_Call.cfg", tag="genprog")["scenarios"]
     has_cancel = lambda p: any(o["op"] == "cancel" for o in p["prog"])
-    progs = [p for p in progs if has_cancel(p) == want_cancel or (want_cancel is None)]
-    total = len(progs)
-    progs = core.sample(ctx.rng, progs, 480 if quick else 6000)
+    bidi = core.generate(ctx, "Gen_Call", "Gen_Call_Q.cfg" if quick else "Gen_Call.cfg", tag="genprog")["scenarios"]
+    bidi = [p for p in bidi if has_cancel(p) == want_cancel]
+    kinds = core.generate(ctx, "Gen_CallK", "Gen_Call_K.cfg", tag="genprogk")["scenarios"]
+    kinds = [p for p in kinds if has_cancel(p) == want_cancel]
+    ctx.notes["programs_generated"] = dict(bidi=len(bidi), other_kinds=len(kinds))
     out = []
-    for i, p in enumerate(progs):
-        out.append(dict(p, proto=["connect", "grpc", "grpcweb"][i % 3]))
-    ctx.notes["programs_generated"] = total
+    for i, p in enumerate(core.sample(ctx.rng, bidi, 360 if quick else 6000)):
+        out.append(dict(p, kind="bidi", http=2, proto=["connect", "grpc", "grpcweb"][i % 3]))
+    for i, p in enumerate(core.sample(ctx.rng, kinds, 240 if quick else len(kinds))):
+        # server and client streaming also run over HTTP/1.1 (plain gRPC needs HTTP/2 trailers end to end)
+        proto = ["connect", "grpc", "grpcweb"][i % 3]
+        http = 2 if proto == "grpc" else [1, 2][(i // 3) % 2]
+        if p["h"]["hret"] == "stall":
+            # net/http's HTTP/1.1 server notices a vanished client only while reading or writing: a handler that
+            # just waits for its context is not told (environment, not the library)
+            http = 2
+        out.append(dict(p, http=http, proto=proto))
     return out
 
 
